@@ -6,8 +6,8 @@ CFG = dict(
                "and refers to no removed entry; model of the two-pass trimming (cum cutoff, top N under the active order, "
                "edge cutoff, redundant residual edges) tied to the code around every cutoff. End-to-end layer: top/tree/dot text comes from "
                "driver.PProf (flags), an interactive session (`top N >file`) or the web /top page; call_tree with text/tree must be ignored; "
-               "source_path/trim_path clean-up is modelled per graph build (text_report_nodes_unchanged holds under paths_stable; F40 "
-               "refutes the unconditional removed-exactly clause); untrimmed_request_shows_all.",
+               "source_path/trim_path clean-up is modelled once per report, on the full-graph build (F42 repaired: text_report_nodes_unchanged "
+               "is unconditional again; the old witness is a regression case); untrimmed_request_shows_all.",
     level_note="Cutoffs enter as the integers computed by the implementation's float expression; in graphical reports the survivor set and "
                "order (EntropyOrder, float log2) are taken from the implementation and the invariance is checked for that set; "
                "TrimTree (call_tree with dot) is not modelled.",
